@@ -578,7 +578,7 @@ fn cmd_run(a: &Args) -> i32 {
     // ---- evidence
     let wall = t0.elapsed().as_secs_f64();
     if let Some(path) = a.get("evidence") {
-        let mut ev = evidence_json(prop, tier, seed, runs, first_run, threads, &profile, &probes, nontrivial_runs, distinct_nontrivial, distinct_sigs, &samples, &other, &other_first, violations, &failure_json, sim_wall, wall, digest, want_digest);
+        let mut ev = evidence_json(a.get("also-ran").unwrap_or(""), prop, tier, seed, runs, first_run, threads, &profile, &probes, nontrivial_runs, distinct_nontrivial, distinct_sigs, &samples, &other, &other_first, violations, &failure_json, sim_wall, wall, digest, want_digest);
         if let J::Obj(ref mut o) = ev {
             if let Some((_, cov)) = o.iter_mut().find(|(k, _)| k == "coverage") {
                 cov.put("regression_corpus", J::obj().set("histories_replayed_before_the_search", J::u(corpus_traces)).set("events", J::u(corpus_events)));
@@ -624,6 +624,7 @@ fn cmd_run(a: &Args) -> i32 {
 
 #[allow(clippy::too_many_arguments)]
 fn evidence_json(
+    also_ran: &str,
     prop: &str,
     tier: &str,
     seed: u64,
@@ -682,6 +683,9 @@ fn evidence_json(
     cov.put("runs_requested", J::u(runs));
     cov.put("worker_threads", J::u(threads));
     cov.put("profile", J::s(profile));
+    if !also_ran.is_empty() {
+        cov.put("also_ran_before_this_batch", J::s(also_ran));
+    }
     cov.put("simulated_time_ns_finite_part", J::Str(p.sim_time_ns.to_string()));
     cov.put("infinite_clock_jumps", J::u(p.infinite_jumps));
     cov.put("events", J::obj().set("deliveries", J::u(p.deliveries)).set("polls", J::u(p.polls)).set("resets", J::u(p.resets)).set("clock_advances", J::u(p.advances)).set("forks", J::u(p.forks)).set("snapshots", J::u(p.snapshots)).set("restores", J::u(p.restores)).set("bare_resets_inside_reset_storms", J::u(p.reset_storm_resets)).set("soak_loops", J::u(p.soak_loops)).set("steps_inside_soak_loops", J::u(p.soak_steps)).set("enc_cc14", J::u(p.enc_cc14)).set("enc_pn", J::u(p.enc_pn)).set("ingest_rejected", J::u(p.ingest_rejected)).set("ingest_mismatch", J::u(p.ingest_mismatch)).set("factory_rebuild_mismatch", J::u(p.factory_rebuild_mismatch)).set("accessor_mismatch", J::u(p.accessor_mismatch)).set("telemetry_mismatch", J::u(p.telemetry_mismatch)).set("garbled_text_parses_ok_plus_calls", J::u(p.garbled_parses)));
